@@ -17,6 +17,9 @@ ASSUMPTIONS = [
 
 
 def searcher(ob):
+    # a ground clause is evaluated on the real functions: the inputs it lists *are* the failing inputs
+    if ob.path_id == "ground" and ob.meta.get("bad"):
+        return {"found": True, "kind": "c17-ground", "clause": ob.key, "bad": ob.meta["bad"]}
     fails, n, d = c17_concrete.search(stop_at=1)
     if fails:
         return {"found": True, "kind": "c17-case", "case": fails[0], "searched": n}
@@ -25,6 +28,16 @@ def searcher(ob):
 
 def replay(data):
     case = data.get("case")
+    if data.get("kind") == "c17-ground":
+        from pyvc.driver import Check as _C
+        chk = _C("C17")
+        c17.spelling_obligations(chk)
+        c17.alias_obligations(chk)
+        c17.instance_predicate_obligations(chk)
+        c17.signature_helper_obligations(chk)
+        bad = [b for ob in chk.obs if ob.key == data.get("clause") for b in ob.meta.get("bad", [])]
+        print("replay", data.get("clause"), "->", bad)
+        return 1 if bad else 0
     if not case:
         print("replay: no concrete input recorded for", data.get("obligation"), data.get("solver"))
         return 1
